@@ -272,7 +272,7 @@ def feats(body, opts, cpy_exc=""):
                 if kw["name"] == "" and not (vv["k"] == "Dict" or (vv["k"] == "T" and vv.get("lit") == "dict") or (vv["k"] == "Name" and vv["id"] in ("m0", "d0"))):
                     F.add("dstar-pairs")
             for a in n["args"]:
-                if a["k"] == "Starred" and not pure(a["v"]):
+                if a["k"] == "Starred" and not (pure(a["v"]) or a["v"]["k"] in ("List", "Tuple")):
                     F.add("star-uses-add")
                 if a["k"] == "GeneratorExp":
                     F.add("genexp-unsupported")
@@ -313,7 +313,7 @@ def feats(body, opts, cpy_exc=""):
                 add_target(t, n["v"])
         elif k in ("List", "Tuple", "Set"):
             for e in n["elts"]:
-                if e["k"] == "Starred" and not pure(e["v"]):
+                if e["k"] == "Starred" and not (pure(e["v"]) or e["v"]["k"] in ("List", "Tuple")):
                     F.add("star-uses-add")
     for t, v in tgt_nodes:
         if t["k"] == "List":
@@ -659,7 +659,7 @@ class RandGen:
             return self.leaf()
         k = r.choice(["bin", "bin", "rbin", "un", "sub", "sub", "slice", "attr", "call", "call", "ifexp", "bool", "walrus", "cmp", "name"])
         if k == "bin":
-            return "(%s %s %s)" % (self.rec(d - 1), BINSRC[r.choice(list(BINSRC))], self.any(d - 1))
+            return "(%s %s %s)" % (self.rec(d - 1), BINSRC[r.choice([o for o in BINSRC if not (self.m and o == "matmul")])], self.any(d - 1))
         if k == "rbin":
             return "(%s %s %s)" % (r.choice(["1", "2", "[1]", "(2,)", "2.5"]), r.choice(["+", "-", "*", "//", "&", "|"]), self.rec(d - 1))
         if k == "un":
@@ -716,7 +716,8 @@ class RandGen:
         kws = []
         for j in range(nkw):
             if r.random() < 0.2:
-                kws.append("**" + r.choice(["m0", self.leaf("{'za': 1}"), "{'zb': %s}" % self.any(d - 1)]))
+                self.kwn = getattr(self, "kwn", 0) + 1
+                kws.append("**" + r.choice(["m0", self.leaf("{'za%d': 1}" % self.kwn), "{'zb%d': %s}" % (self.kwn, self.any(d - 1))]))
             else:
                 kws.append("k%d=%s" % (j, self.any(d - 1)))
         return "%s(%s)" % (f, ", ".join(args + kws))
@@ -852,7 +853,7 @@ class RandGen:
                     self.bind(n, n + "," in tg.replace(" ", "") + "," and ("*" + n) not in tg)
             return s
         if k == "unpackdisp":
-            s = "x, %s = %s, %s" % (r.choice(["y", "a0[%s]" % self.rec(d - 2), "(y, z)"]), self.rec(d - 1), self.rec(d - 1))
+            s = "x, %s = %s, %s" % (r.choice(["y", "a0[%s]" % self.rec(d - 2)] + ([] if self.m else ["(y, z)"])), self.rec(d - 1), self.rec(d - 1))
             self.bind("x", True)
             for n in "yz":
                 if n in self.rvars:
